@@ -95,6 +95,41 @@ def rip_cursor(chk, f):
     chk.floor("R-RIP-CURSOR", "stores to parameter_state", nps, 2)
 
 
+# ===================================================================================================== R-IGS-LOOP
+IGS_PARSER = "parsers::igs::Parser"
+
+
+def igs_loop(chk, f):
+    """the reviewed argument for `parsed_numbers[4]` in the IGS loop command ("LoopState::ReadParameter is only reached through
+    ReadCommand, which pushes the fifth number ... '&' restarts the loop state machine at Start") is re-checked: every store of
+    State::ReadCommand(LoopCommand) into the parser's `state` comes with a store of LoopState::Start into `loop_state` - in the
+    same block, in a block that dominates it or in one that post-dominates it.  A loop state left behind by an abandoned loop
+    would otherwise skip the step that pushes the fifth number."""
+    n = 0
+    for b in f.bodies.values():
+        if b.kind not in ("fn", "method", "closure"):
+            continue
+        eb = None
+        starts = None
+        for bi, k, s in b.stmts():
+            if not _field_store(s, "state", IGS_PARSER):
+                continue
+            eb = eb or ExprBuilder(b)
+            val = show(eb.rvalue(s["rv"]))
+            if not (val.startswith("ReadCommand{") and "LoopCommand" in val):
+                continue
+            n += 1
+            if starts is None:
+                starts = [bj for bj, kj, sj in b.stmts() if _field_store(sj, "loop_state", IGS_PARSER) and show(eb.rvalue(sj["rv"])).startswith("Start{")]
+            ok = any(bj == bi or b.dominates(bj, bi) or b.postdominates(bj, bi) for bj in starts)
+            chk.obligation(ok)
+            if not ok:
+                chk.finding("%s|loop-start-not-reset" % b.short(), rule="R-IGS-LOOP", where="%s:%s" % (b.file, s["line"]), fn=b.short(),
+                            what="the IGS parser enters ReadCommand(LoopCommand) without storing loop_state = LoopState::Start: the state an "
+                                 "abandoned loop left behind survives, the step that pushes the fifth number is skipped and parsed_numbers[4] is out of range")
+    chk.floor("R-IGS-LOOP", "stores of State::ReadCommand(LoopCommand)", n, 1)
+
+
 # ===================================================================================================== R-IMAGE-RECT
 def image_rect(chk, f):
     """Every `Image { width, height, data }` built in the RIP emulation holds width x height bytes: the vector handed to `data`
@@ -538,6 +573,8 @@ def run(chk):
     reviewed = P.run_scope(chk, "GFX", roots, floor_roots=4, floor_bodies=400, floor_sinks=300, reviewed_file="reviewed_safe.json")
     chk.rules.append("R-RIP-CURSOR")
     rip_cursor(chk, f)
+    chk.rules.append("R-IGS-LOOP")
+    igs_loop(chk, f)
     chk.rules.append("R-IMAGE-RECT")
     image_rect(chk, f)
     chk.rules.append("R-WORKLIST")
